@@ -80,7 +80,7 @@ def plans(seed, q):
         ("core", dict(ops=core, depth=3 if q else 4, kinds=k2[:1], where=("body",))),
         # after opening packages with arbitrary relationship ids
         ("foreign", dict(ops=fcore, depth=2 if q else 3, kinds=("default",), where=("body",),
-                         new=False, schemes=SCHEMES, contents=["full"])),
+                         new=False, schemes=SCHEMES if q else [x for i, x in enumerate(SCHEMES) if i % 3 != seed % 3], contents=["full"])),
     ]
     if q:
         P += [("foreign1", dict(ops=ALLOPS, depth=1, via=VIA1 | {"legacy"}, kinds=k2[:1], new=False, schemes=SCHEMES,
@@ -90,10 +90,11 @@ def plans(seed, q):
                                   schemes=SCHEMES, contents=[["hf", "full", "notes"][seed % 3]], flags=(False,), abs_=(True,)))]
     else:
         P += [
-            ("foreign1", dict(ops=ALLOPS, depth=1, via=ALLVIA - {"file"}, new=False, schemes=SCHEMES, contents=CONTENTS, flags=(True,), abs_=(False, True))),
+            ("foreign1", dict(ops=ALLOPS, depth=1, via=ALLVIA - {"file"}, new=False, schemes=SCHEMES,
+                              contents=[x for i, x in enumerate(CONTENTS) if i % 3 != seed % 3 or x == "full"], flags=(True,), abs_=(False, True))),
             ("foreignfile", dict(ops=fcore, depth=1, via=VIA1 | {"file"}, new=False, schemes=SCHEMES, contents=["full"], flags=(False,), abs_=(False, True))),
             ("foreign2", dict(ops=fcore + ["AddHeaderWithPageNumber"], depth=2, kinds=("default", "even"), where=("body", "cell"),
-                              new=False, schemes=SCHEMES, contents=["min", "notes", "hf2"])),
+                              new=False, schemes=SCHEMES, contents=["min", ["notes", "hf2", "mix"][seed % 3]])),
             # redefinitions free ids in the middle of the list: constructors x kinds x other creating calls, deeper
             ("hf", dict(ops=HF6 + ["AddImage", "Reopen"], depth=3, kinds=k2, where=("body",))),
             ("hf4", dict(ops=["AddHeader", "AddFooter", "AddImage", "AddFootnote", "Reopen"], depth=4, kinds=k2[:1], where=("cell",))),
